@@ -54,9 +54,31 @@ def main():
         else:
             return ctx.finish(thm)
 
+    # a change that makes the implementation use memory or time without bound must end in a verdict, not in a process
+    # killed from outside: the address space of this process (and of what it starts) is capped, and the whole run has a
+    # deadline; MemoryError inside a call of the implementation is an exception like any other (a failing input)
+    import resource
+    import signal
+    cap = int(os.environ.get('VERIF_MEMORY_CAP_GB', '16')) * 1024 ** 3
+    try:
+        soft, hard = resource.getrlimit(resource.RLIMIT_AS)
+        resource.setrlimit(resource.RLIMIT_AS, (cap if hard == resource.RLIM_INFINITY else min(cap, hard), hard))
+    except (ValueError, OSError):
+        pass
+
+    class Deadline(Exception):
+        pass
+
+    def on_alarm(signum, frame):
+        raise Deadline('no verdict within %d s' % limit)
+    limit = int(os.environ.get('VERIF_DEADLINE_S', '3000' if tier == 'quick' else '36000'))
+    signal.signal(signal.SIGALRM, on_alarm)
+    signal.alarm(limit)
     try:
         mod.run(ctx)
+        signal.alarm(0)
     except Exception as e:  # noqa
+        signal.alarm(0)
         # the machinery met behaviour of the implementation it cannot interpret: the property is no longer
         # shown to hold; report it rather than die without a verdict
         import traceback
